@@ -75,6 +75,16 @@ Fixpoint spec_ok_buf (l : bytes) (tr : list (bop * bout)) : bool :=
       else negb (bmust_fail l op) && bout_ok op o (snd (sstep l op)) && spec_ok_buf (fst (sstep l op)) tr'
   end.
 
+(* the same replay when allocation failures may strike anywhere: a failed puts / putc / printf / str is
+   accepted at any size and must change nothing *)
+Fixpoint spec_ok_buf_faulty (l : bytes) (tr : list (bop * bout)) : bool :=
+  match tr with
+  | [] => true
+  | (op, o) :: tr' =>
+      if bis_failure op o then spec_ok_buf_faulty l tr'
+      else negb (bmust_fail l op) && bout_ok op o (snd (sstep l op)) && spec_ok_buf_faulty (fst (sstep l op)) tr'
+  end.
+
 Fixpoint bspec_final (l : bytes) (tr : list (bop * bout)) : bytes :=
   match tr with
   | [] => l
